@@ -10,9 +10,9 @@ package models
 // starts the workers and waits for them; Stop() does `<-doneCh`, so that
 // goroutine has to run to completion inline:
 //
-//   cache.WaitForNamedCacheSync   -> calls every sync function once; true iff
-//                                    all of them are true (no polling; a cache
-//                                    that is not synced counts as "stopped")
+//   cache.WaitForNamedCacheSync   -> engine intrinsic (threads.go): waits
+//                                    cooperatively until all sync functions
+//                                    are true or the stop channel is closed
 //   wait.Until                    -> returns at once if stopCh is closed, else
 //                                    calls f exactly once and returns (no
 //                                    period, no second round)
